@@ -189,9 +189,13 @@ func (p *Prog) withinOnlyRec(fn *ssa.Function, allowed func(*ssa.Function) bool,
 	if fn.Parent() != nil {
 		return p.withinOnlyRec(fn.Parent(), allowed, seen)
 	}
-	// exported functions can be called by anyone
+	// exported functions can be called by anyone — except that an exported function which an allowed function merely
+	// hands its work to (`return g(args)`, results unchanged) is that function's body under another name: the kernels
+	// rooted at the allowed function analyse it inlined, for argument values they do not constrain
 	if fn.Object() != nil && fn.Object().Exported() {
-		return false
+		if !p.tailDelegated(fn) {
+			return false
+		}
 	}
 	cs := p.callerIndex()[fn]
 	if len(cs) == 0 {
@@ -199,6 +203,52 @@ func (p *Prog) withinOnlyRec(fn *ssa.Function, allowed func(*ssa.Function) bool,
 	}
 	for c := range cs {
 		if !p.withinOnlyRec(c, allowed, seen) {
+			return false
+		}
+	}
+	return true
+}
+
+// tailDelegated: every module caller of g returns g's results unchanged (`return g(...)`), and there is at least one.
+func (p *Prog) tailDelegated(g *ssa.Function) bool {
+	cs := p.callerIndex()[g]
+	if len(cs) == 0 {
+		return false
+	}
+	for caller := range cs {
+		found := false
+		for _, b := range caller.Blocks {
+			for _, in := range b.Instrs {
+				call, ok := in.(*ssa.Call)
+				if !ok || call.Common().StaticCallee() != g {
+					continue
+				}
+				found = true
+				if !onlyReturned(call) {
+					return false
+				}
+			}
+		}
+		if !found {
+			return false // the value of g is taken, not called: not a plain delegation
+		}
+	}
+	return true
+}
+
+func onlyReturned(v ssa.Value) bool {
+	refs := v.Referrers()
+	if refs == nil || len(*refs) == 0 {
+		return false
+	}
+	for _, r := range *refs {
+		switch x := r.(type) {
+		case *ssa.Return, *ssa.DebugRef:
+		case *ssa.Extract:
+			if !onlyReturned(x) {
+				return false
+			}
+		default:
 			return false
 		}
 	}
@@ -286,6 +336,61 @@ func intoOwnMake(st *ssa.Store) bool {
 		}
 	}
 	return isMake && sawIndex
+}
+
+// constructionOnly: the store fills an object this function allocated and only ever fills, reads and returns — it is
+// never handed to a callee (a decoder, say), stored elsewhere or merged with another value. Building a value field by
+// field is construction, exactly like a composite literal.
+func constructionOnly(st *ssa.Store) bool {
+	var base ssa.Value = st.Addr
+	for {
+		switch a := base.(type) {
+		case *ssa.FieldAddr:
+			base = a.X
+			continue
+		case *ssa.IndexAddr:
+			base = a.X
+			continue
+		}
+		break
+	}
+	al, ok := base.(*ssa.Alloc)
+	if !ok {
+		return false
+	}
+	seen := map[ssa.Value]bool{}
+	var okUse func(v ssa.Value) bool
+	okUse = func(v ssa.Value) bool {
+		if seen[v] {
+			return true
+		}
+		seen[v] = true
+		refs := v.Referrers()
+		if refs == nil {
+			return false
+		}
+		for _, r := range *refs {
+			switch x := r.(type) {
+			case *ssa.FieldAddr, *ssa.IndexAddr:
+				if !okUse(x.(ssa.Value)) {
+					return false
+				}
+			case *ssa.Store:
+				if x.Val == v {
+					return false // the address itself is stored somewhere
+				}
+			case *ssa.UnOp:
+				if x.Op != token.MUL {
+					return false
+				}
+			case *ssa.Return, *ssa.DebugRef:
+			default:
+				return false
+			}
+		}
+		return true
+	}
+	return okUse(al)
 }
 
 func literalInit(st *ssa.Store) bool {
@@ -399,7 +504,7 @@ func decodedImmutable(c *Ctx, rule string) {
 					default:
 						continue
 					}
-					if literalInit(st) || intoOwnMake(st) {
+					if literalInit(st) || intoOwnMake(st) || constructionOnly(st) {
 						continue
 					}
 					if allowed[what] && c.P.withinOnly(f, validators) {
